@@ -300,6 +300,7 @@ pub fn run(tier: Tier, args: &[String]) -> i32 {
             min_frontier: 400,
             record: false,
             garbage: false,
+            menu: None,
         };
         let v = V {
             rep: &rep,
@@ -322,6 +323,7 @@ pub fn run(tier: Tier, args: &[String]) -> i32 {
                 min_frontier: 400,
             record: false,
             garbage: false,
+            menu: None,
             },
         };
         let st = explore::run(&cfg, &v, 4);
